@@ -211,7 +211,7 @@ impl<R: Read + Seek> ReadBox<&mut R> for EsdsBox {
         let mut current = reader.stream_position()?;
         let end = start + size;
         while current < end {
-            let (desc_tag, desc_size) = read_desc(reader)?;
+            let (desc_tag, desc_size) = read_desc_within(reader, end)?;
             match desc_tag {
                 0x03 => {
                     es_desc = Some(ESDescriptor::read_desc(reader, desc_size)?);
@@ -274,6 +274,14 @@ fn read_desc<R: Read>(reader: &mut R) -> Result<(u8, u32)> {
     }
 
     Ok((tag, size))
+}
+
+/// Read a descriptor header; the reported size is limited to what is left before `end`
+/// (a descriptor cannot reach beyond the descriptor or box that contains it).
+fn read_desc_within<R: Read + Seek>(reader: &mut R, end: u64) -> Result<(u8, u32)> {
+    let (tag, size) = read_desc(reader)?;
+    let remaining = end.saturating_sub(reader.stream_position()?);
+    Ok((tag, (size as u64).min(remaining) as u32))
 }
 
 fn size_of_length(size: u32) -> u32 {
@@ -351,7 +359,7 @@ impl<R: Read + Seek> ReadDesc<&mut R> for ESDescriptor {
         let mut current = reader.stream_position()?;
         let end = start + size as u64;
         while current < end {
-            let (desc_tag, desc_size) = read_desc(reader)?;
+            let (desc_tag, desc_size) = read_desc_within(reader, end)?;
             match desc_tag {
                 0x04 => {
                     dec_config = Some(DecoderConfigDescriptor::read_desc(reader, desc_size)?);
@@ -444,7 +452,7 @@ impl<R: Read + Seek> ReadDesc<&mut R> for DecoderConfigDescriptor {
         let mut current = reader.stream_position()?;
         let end = start + size as u64;
         while current < end {
-            let (desc_tag, desc_size) = read_desc(reader)?;
+            let (desc_tag, desc_size) = read_desc_within(reader, end)?;
             match desc_tag {
                 0x05 => {
                     dec_specific = Some(DecoderSpecificDescriptor::read_desc(reader, desc_size)?);
